@@ -18,6 +18,11 @@ struct SchedPlan
 	uint32_t delta[max_switches];      // steps to run before the i-th switch
 	uint32_t target[max_switches];     // choice of the thread to switch to (modulo runnable others)
 	uint32_t onExit[64];               // choice of the next thread when a thread finishes (cyclic)
+	// tsan flavour only: every atomic operation of instrumented code is a scheduling point of its own (the calls into the TSan
+	// runtime are wrapped at link time); bit k%256 says whether the k-th atomic operation of the run is preceded by a switch
+	bool atomicOn = false;
+	uint8_t atomicSwitch[256];
+	uint32_t atomicTarget[64];
 };
 
 struct SchedResult
@@ -25,6 +30,8 @@ struct SchedResult
 	uint64_t steps = 0;
 	uint64_t switches = 0;
 	uint64_t switchHash = 0;   // FNV-1a over (from, to, yield-point id)
+	uint64_t atomicPoints = 0;     // atomic operations seen while scheduling (0 in the asan flavour: they are inline instructions there)
+	uint64_t atomicSwitches = 0;
 	bool deadlock = false;
 };
 
@@ -36,5 +43,6 @@ SchedResult sched_run(const SchedPlan& plan, SchedTask task, void* arg);
 // Non-preemptible section (function-local static initialisation is wrapped with it at link time)
 void sched_no_preempt_begin();
 void sched_no_preempt_end();
+void sched_atomic_point();
 
 } // namespace sim
